@@ -289,7 +289,11 @@ fn compare(base: &Outcome, var: &Outcome, dups: &[(String, String)], symmetric_e
 // ---------------------------------------------------------------------------------------
 
 fn gen_c04(r: &mut Rng) -> (J, Prog) {
-    let d = if r.chance(1, 4) { doc::gen_cfn(r) } else { doc::gen_doc(r) };
+    let mut d = if r.chance(1, 4) { doc::gen_cfn(r) } else { doc::gen_doc(r) };
+    let with_recs = r.chance(1, 3);
+    if with_recs {
+        add_recs(r, &mut d);
+    }
     let o = GenOpts { captures: false, functions: r.chance(1, 4), allow_now: false, default_clauses: false, max_rules: 6, ..Default::default() };
     let mut p = rules::gen_prog(r, &d, &o);
     // make sure named-rule references exist (from when-conditions and from bodies)
@@ -315,6 +319,9 @@ fn gen_c04(r: &mut Rng) -> (J, Prog) {
             3 => p.rules.push(Rule { name: format!("wprobe_{n}"), when: vec![Line { alts: vec![Clause::Ref { not: r.chance(1, 2), name: n.clone(), msg: None }] }], body: Body { lets: vec![], lines: vec![Line { alts: vec![Clause::Cmp(Cmp { not: false, q: Query { some: false, parts: vec![Part::Key("zz_not_there".into())] }, op: Op::Exists, opnot: true, rhs: None, msg: None })] }] } }),
             _ => {}
         }
+    }
+    if with_recs {
+        add_some_variable_probes(r, &mut p);
     }
     // the documented idiom "one name, several definitions with mutually exclusive guards":
     // exactly one definition can be non-SKIP, so the named status is order independent
@@ -570,6 +577,42 @@ impl Check for C04 {
 // C15
 // ---------------------------------------------------------------------------------------
 
+/// Records with distinct names; `nick` is present in some records only, so that
+/// `some recs[*].nick` leaves unresolved entries to filter.
+fn add_recs(r: &mut Rng, d: &mut J) {
+    let pool = ["alpha", "beta", "Gamma", "a%20b", "data", "banana"];
+    let n = 2 + r.usize(2);
+    let mut idx = r.perm(pool.len());
+    idx.truncate(n);
+    let recs: Vec<J> = idx
+        .iter()
+        .enumerate()
+        .map(|(i, k)| {
+            let mut m = vec![("name".to_string(), J::Str(pool[*k].into())), ("n".to_string(), J::Int(i as i64))];
+            if i % 2 == 0 {
+                m.push(("nick".to_string(), J::Str(format!("n{}", i))));
+            }
+            J::Map(m)
+        })
+        .collect();
+    if let J::Map(kv) = d {
+        kv.push(("recs".into(), J::List(recs)));
+    }
+}
+
+/// A file-level `some` variable whose query leaves unresolved entries, referenced from
+/// several single-purpose rules (which reference forces it first depends on the order).
+fn add_some_variable_probes(r: &mut Rng, p: &mut Prog) {
+    let some = r.chance(3, 4);
+    p.lets.push(Let { name: "sq".into(), val: Arg::Query(Query { some, parts: vec![Part::Key("recs".into()), Part::AllIdx, Part::Key("nick".into())] }) });
+    let mk = |op: Op, opnot: bool| Line { alts: vec![Clause::Cmp(Cmp { not: false, q: Query { some: false, parts: vec![Part::Var("sq".into())] }, op, opnot, rhs: None, msg: None })] };
+    let mut lines = vec![mk(Op::Exists, false), mk(Op::IsString, false), mk(Op::Empty, true)];
+    r.shuffle(&mut lines);
+    p.rules.push(Rule { name: "probe_sq".into(), when: vec![], body: Body { lets: vec![], lines } });
+    p.rules.push(Rule { name: "probe_sq2".into(), when: vec![mk(Op::Exists, false)], body: Body { lets: vec![], lines: vec![mk(Op::IsString, false)] } });
+    p.rules.push(Rule { name: "probe_sq3".into(), when: vec![], body: Body { lets: vec![], lines: vec![mk(Op::IsString, false)] } });
+}
+
 fn var_clause(name: &str, r: &mut Rng) -> Clause {
     let (op, opnot) = *r.pick(&[(Op::Exists, false), (Op::Empty, true), (Op::Exists, true), (Op::IsString, false), (Op::IsList, true)]);
     Clause::Cmp(Cmp { not: false, q: Query { some: r.chance(1, 4), parts: vec![Part::Var(name.to_string())] }, op, opnot, rhs: None, msg: None })
@@ -588,14 +631,7 @@ fn make_var_heavy(r: &mut Rng, p: &mut Prog, d: &J) {
     p.lets.push(Let { name: "fq".into(), val: Arg::Query(Query { some: false, parts: vec![Part::Key(k1.clone())] }) });
     p.lets.push(Let { name: "fc".into(), val: Arg::Func(Box::new(Func { name: "count".into(), args: vec![Arg::Query(Query { some: false, parts: vec![Part::Key(k1), Part::Star] })] })) });
     if matches!(d, J::Map(kv) if kv.iter().any(|(k, _)| k == "recs")) {
-        let some = r.chance(2, 3);
-        p.lets.push(Let { name: "sq".into(), val: Arg::Query(Query { some, parts: vec![Part::Key("recs".into()), Part::AllIdx, Part::Key("nick".into())] }) });
-        // a probe rule that references it several times, with different operators
-        let mk = |op: Op, opnot: bool| Line { alts: vec![Clause::Cmp(Cmp { not: false, q: Query { some: false, parts: vec![Part::Var("sq".into())] }, op, opnot, rhs: None, msg: None })] };
-        let mut lines = vec![mk(Op::Exists, false), mk(Op::IsString, false), mk(Op::Empty, true)];
-        r.shuffle(&mut lines);
-        p.rules.push(Rule { name: "probe_sq".into(), when: vec![], body: Body { lets: vec![], lines } });
-        p.rules.push(Rule { name: "probe_sq2".into(), when: vec![mk(Op::Exists, false)], body: Body { lets: vec![], lines: vec![mk(Op::IsString, false)] } });
+        add_some_variable_probes(r, p);
     }
     // a variable first referenced from a when-condition, and one referenced from inside a filter
     p.rules.push(Rule { name: "probe_when".into(), when: vec![Line { alts: vec![var_clause("fq", r)] }], body: Body { lets: vec![], lines: vec![Line { alts: vec![var_clause("fq", r)] }, Line { alts: vec![var_clause("fc", r)] }] } });
@@ -773,6 +809,26 @@ fn make_var_heavy(r: &mut Rng, p: &mut Prog, d: &J) {
             p.rules[k].body.lets.push(Let { name: format!("unused{}", i), val });
         }
     }
+    // two rules of one name (legal), each with its own rule-level variable of the same
+    // name bound to something else; no rule refers to them by name
+    if r.chance(1, 3) {
+        let k = key(r);
+        let a = Arg::Query(Query { some: false, parts: vec![Part::Key(k.clone())] });
+        let b = if r.chance(1, 2) { Arg::Query(Query { some: false, parts: vec![Part::Key(k.clone()), Part::Key("zz_inner".into())] }) } else { Arg::Func(Box::new(Func { name: "count".into(), args: vec![Arg::Query(Query { some: false, parts: vec![Part::Key(k)] })] })) };
+        let mk = |val: Arg, r: &mut Rng| {
+            let mut lines = vec![Line { alts: vec![Clause::Cmp(Cmp { not: false, q: Query { some: false, parts: vec![Part::Var("tv".into())] }, op: Op::Exists, opnot: false, rhs: None, msg: None })] }];
+            if r.chance(1, 2) {
+                lines.push(Line { alts: vec![var_clause("tv", r)] });
+            }
+            Rule { name: "twin".into(), when: vec![], body: Body { lets: vec![Let { name: "tv".into(), val }], lines } }
+        };
+        let (first, second) = if r.chance(1, 2) { (a, b) } else { (b, a) };
+        let r1 = mk(first, r);
+        let r2 = mk(second, r);
+        let at = r.usize(p.rules.len() + 1);
+        p.rules.insert(at, r1);
+        p.rules.push(r2);
+    }
 }
 
 impl Check for C15 {
@@ -812,32 +868,16 @@ impl Check for C15 {
         let mut r = Rng::stream(seed, "workload");
         let mut d = doc::gen_doc(&mut r);
         if r.chance(2, 3) {
-            // records with distinct names, for block-level function variables
-            let pool = ["alpha", "beta", "Gamma", "a%20b", "data", "banana"];
-            let n = 2 + r.usize(2);
-            let mut idx = r.perm(pool.len());
-            idx.truncate(n);
-            // `nick` is present in some records only: `some recs[*].nick` leaves unresolved entries to filter
-            let recs: Vec<J> = idx
-                .iter()
-                .enumerate()
-                .map(|(i, k)| {
-                    let mut m = vec![("name".to_string(), J::Str(pool[*k].into())), ("n".to_string(), J::Int(i as i64))];
-                    if i % 2 == 0 {
-                        m.push(("nick".to_string(), J::Str(format!("n{}", i))));
-                    }
-                    J::Map(m)
-                })
-                .collect();
-            if let J::Map(kv) = &mut d {
-                kv.push(("recs".into(), J::List(recs)));
-            }
+            add_recs(&mut r, &mut d);
         }
         let o = GenOpts { captures: false, functions: true, allow_now: false, default_clauses: false, max_rules: 4, prules: false, ..Default::default() };
         let mut p = rules::gen_prog(&mut r, &d, &o);
         make_var_heavy(&mut r, &mut p, &d);
         if p.print().contains("unused") {
             rep.count("gen.unused_vars", 1);
+        }
+        if p.rules.iter().filter(|x| x.name == "twin").count() == 2 {
+            rep.count("gen.same_name_rules_own_variable", 1);
         }
         let mut files = vec![
             FileSpec { rel: "data/d0.json".into(), bytes: doc::render(&d, DocFmt::JsonPretty).into_bytes(), mtime_ns: 0 },
@@ -912,8 +952,8 @@ impl Check for C15 {
                 }
             }
         }
-        if n < 3 {
-            rep.sample = Some(json!({"rules_identity": p.print().chars().take(900).collect::<String>(), "variants": variants.iter().map(|v| v.what.clone()).collect::<Vec<_>>(), "base": base[0].class}));
+        if n < 3 || std::env::var_os("GSIM_SAMPLE_ALL").is_some() {
+            rep.sample = Some(json!({"rules_identity": p.print().chars().take(if n < 3 { 900 } else { 100_000 }).collect::<String>(), "variants": variants.iter().map(|v| v.what.clone()).collect::<Vec<_>>(), "base": base[0].class}));
         }
         rep
     }
